@@ -82,6 +82,11 @@ PROPS = {
         'Trusted: the snapshot-semantics model, the ledger, the watchdog for real hangs. Policies: SingleThreading, MultipleThreading, real SpinLock, and SimMutex/SpinLock inside one simulated task.',
         'Each evaluation is one seeded program: a history of 8-40 top-level operations whose added callbacks carry scripts (1-3 operations each, nested scripts allowed, global fuel 6-30) on CallbackList or EventDispatcher under one of 9 policy variants. '
         'Non-trivial = at least one added callback carries a script; distinct = distinct plan hashes.'),
+    'C12': seq_prop('seq_filter', [st('c12', 'seq_filter', 'c12', 300000, 6000000)],
+        'seeded filter / listener / dispatch histories (direct and queued) in lockstep with a dispatcher-with-filters model; harness mixins before and after MixinFilter record their position; canContinueInvoking, conditionalFunctor and argumentAdapter variants',
+        'Seeded search over histories of appendFilter / removeFilter (also from inside a filter), listener changes and dispatches - direct, and performed by EventQueue::process - with by-value and by-reference prototype parameters, arguments as lvalues and temporaries. Every filter call is checked when it happens: it must be the next filter in order of addition that is still attached, see the arguments as modified by the earlier filters, and no filter or listener may run after a filter returned false; listeners must see the modified values. Variants: MixinFilter alone, between two recording mixins, on EventQueue, MixinHeterFilter on HeterEventDispatcher; canContinueInvoking reading a flag in a by-reference argument (CallbackList and EventDispatcher); conditionalFunctor and argumentAdapter (value and shared_ptr flavours).',
+        'Trusted: the filter model. With lvalue arguments a heterogeneous dispatcher forwards references to the caller\'s own objects, so that variant dispatches temporaries only.',
+        'Each evaluation is one seeded history of 8-38 operations on one of six configurations. Non-trivial = contains a dispatch; distinct = distinct plan hashes.'),
     'C14': seq_prop('seq_heter', [st('c14', 'seq_heter', 'c14', 300000, 6000000)],
         'seeded histories over HeterCallbackList / HeterEventDispatcher / HeterEventQueue with five prototypes whose argument types differ in size and triviality (ledger-tracked), recycled queue slots, and every predicate prototype; per-prototype list models and a FIFO queue model; ledger turns a slot read as the wrong type into a deterministic error',
         'Seeded search over histories that mix nine callback shapes (callable with exactly one prototype, with several, variadic), eight argument shapes (exact, convertible to one or several prototypes) and seven predicate shapes. The expected prototype of every shape is tabulated by hand ("first listed prototype it can be called with"). Checked: which callbacks run, in which order, with which (converted) argument values; queue FIFO across prototypes for process/processOne; processIf asks its predicate about exactly the queued events of its prototype and leaves every other event untouched and in place; payload integrity (pattern-filled 180-byte payload, tracked small payload, strings).',
@@ -136,7 +141,7 @@ PROPS = {
         'Trusted: the ledger (sim/ledger.h). The number of transient copies std::function makes is never counted, only liveness at quiescence. The documentation lets queue slots keep arguments until reuse; the check asks no more than the statement.',
         'Each evaluation is one seeded re-entrant program over a pool of lists/dispatchers (stage c08-list) or queues (stage c08-queue) with scripts, pool operations and counter jumps enabled together; the two c08-exceptions stages run the C09 fault enumeration (every k-th fault point of every operation) because the statement includes histories with exceptions. Non-trivial = contains an invocation / processing call; distinct = distinct plan hashes.'),
     'C09': seq_prop('seq_list', [st('c09-list', 'seq_list', 'c09', 12000, 400000, 120, 1200), st('c09-queue', 'seq_queue', 'c09', 8000, 250000, 120, 1200),
-         st('c09-dispatcher', 'seq_disp', 'c09', 8000, 250000, 120, 1200), st('c09-heter', 'seq_heter', 'c09', 8000, 250000, 120, 1200), st('c09-removers', 'seq_remover', 'c09', 8000, 250000, 120, 1200), st('c09-anydata', 'seq_anydata', 'c09', 8000, 250000, 120, 1200)],
+         st('c09-dispatcher', 'seq_disp', 'c09', 8000, 250000, 120, 1200), st('c09-heter', 'seq_heter', 'c09', 8000, 250000, 120, 1200), st('c09-removers', 'seq_remover', 'c09', 8000, 250000, 120, 1200), st('c09-anydata', 'seq_anydata', 'c09', 8000, 250000, 120, 1200), st('c09-filters', 'seq_filter', 'c09', 8000, 250000, 120, 1200)],
         'systematic fault injection: for every operation of every seeded history, a throw at the k-th fault point for every k (allocation through a replaced operator new; copy, move, comparison and invocation of user types), singly and with a seeded second fault later in the same execution',
         'For each seeded plan the harness first runs fault-free and records, per top-level operation i, the number N_i of fault points it passes; it then re-executes the plan once for every (i, k <= N_i) with the k-th point of operation i throwing (std::bad_alloc for allocations, InjectedFault otherwise). Checked: the exception reaches the caller (no terminate, no swallowed fault); strong-guarantee operations leave the complete observable state equal to the model\'s pre-call state; failed container copies leave the source intact and the destination valid; an exception out of an invocation / processing call leaves the lists as the callbacks left them and discards exactly the events that call had taken out; the rest of the plan conforms fault-free; nothing leaks.',
         'Enumeration is exhaustive per generated history (every k), histories are sampled by seed. Trusted: the replaced operator new covers every allocation of the binary; faults are armed only for the duration of library calls.',
